@@ -187,6 +187,25 @@ def wall_widths(reg):
     return out
 
 
+def duct_heating(reg, rec):
+    """Mid-wall temperature rise due to wall heating (q L^2 / 8k, q the
+    power density) of every duct cell in this step (n_duct x n_cell), from
+    the power handed to the step and the wall conductivities the wall solve
+    evaluated."""
+    nd = reg.subchannel.n_sc['duct']['total']
+    out = np.zeros((reg.n_duct, nd))
+    pw = (rec.get('pow') or {}).get('duct')
+    if pw is None:
+        return out
+    ks = [c['k'] for c in rec['sub']['_calc_duct_temp'][0]['calls']
+          if c['kind'] == 'duct']
+    w = wall_widths(reg)
+    for d in range(reg.n_duct):
+        L = 0.5 * float(reg.duct_ftf[d][1] - reg.duct_ftf[d][0])
+        out[d] = pw[d * nd:(d + 1) * nd] * L / (8.0 * ks[d] * w[d])
+    return out
+
+
 def sc_flows(reg):
     """Subchannel mass flows rebuilt from published geometry and split."""
     st = reg.subchannel.type[:reg.subchannel.n_sc['coolant']['total']]
